@@ -336,15 +336,26 @@ func TestVfC19(t *testing.T) {
 		{"host+port", []vf19KV{{"host", "10.0.0.1"}, {"port", "8123"}}, []vf19KV{{"http_address", "10.0.0.1:8123"}}},
 		{"grpc_port", []vf19KV{{"host", "10.0.0.1"}, {"port", "8123"}, {"grpc_port", "9123"}}, []vf19KV{{"http_address", "10.0.0.1:8123"}, {"grpc_address", "10.0.0.1:9123"}}},
 		{"profile_host+profile_port", []vf19KV{{"http_address", "h:1"}, {"grpc_address", "h:2"}, {"profile_host", "127.0.0.9"}, {"profile_port", "6060"}}, []vf19KV{{"http_address", "h:1"}, {"grpc_address", "h:2"}, {"profile_address", "127.0.0.9:6060"}}},
+		// mixed: one listener in the current form, the other in the deprecated form
+		{"grpc_port", []vf19KV{{"http_address", "127.0.0.1:8080"}, {"host", "10.0.0.1"}, {"grpc_port", "9123"}}, []vf19KV{{"http_address", "127.0.0.1:8080"}, {"grpc_address", "10.0.0.1:9123"}}},
+		{"grpc_port", []vf19KV{{"http_address", "127.0.0.1:8080"}, {"grpc_port", "9123"}}, []vf19KV{{"http_address", "127.0.0.1:8080"}, {"grpc_address", ":9123"}}},
+		{"host+port", []vf19KV{{"host", "10.0.0.1"}, {"port", "8123"}, {"grpc_address", "g:9"}}, []vf19KV{{"http_address", "10.0.0.1:8123"}, {"grpc_address", "g:9"}}},
+		{"profile_host+profile_port", []vf19KV{{"host", "h"}, {"port", "1"}, {"grpc_port", "2"}, {"profile_address", "127.0.0.9:6060"}}, []vf19KV{{"http_address", "h:1"}, {"grpc_address", "h:2"}, {"profile_address", "127.0.0.9:6060"}}},
 	} {
-		rep.Eval()
 		req := []vf19KV{{"dir", "/d"}, {"max_size", "1"}, {"max_size_hard_limit", "0"}}
-		if c.name != "grpc_port" && c.name != "profile_host+profile_port" {
+		hasG := false
+		for _, kv := range c.deprecated {
+			if kv.flag == "grpc_address" || kv.flag == "grpc_port" {
+				hasG = true
+			}
+		}
+		if !hasG {
 			req = append(req, vf19KV{"grpc_address", "g:9"})
 		}
 		dres, derrs := vf19Three(append(append([]vf19KV(nil), req...), c.deprecated...))
 		mres, merrs := vf19Three(append(append([]vf19KV(nil), req...), c.modern...))
 		for i := 0; i < 3; i++ {
+			rep.Eval() // one evaluation per front end
 			if derrs[i] != nil || merrs[i] != nil {
 				rep.Violate("C19 deprecated listener form refused", fmt.Sprintf("%s via %s: %v / %v", c.name, vf19Fronts[i], derrs[i], merrs[i]), nil)
 				continue
@@ -353,7 +364,7 @@ func TestVfC19(t *testing.T) {
 			if a.HTTPAddress != b.HTTPAddress || a.GRPCAddress != b.GRPCAddress || a.ProfileAddress != b.ProfileAddress {
 				rep.Violate("C19 deprecated listener form means something else", fmt.Sprintf("%s via %s: %s/%s/%s vs %s/%s/%s", c.name, vf19Fronts[i], a.HTTPAddress, a.GRPCAddress, a.ProfileAddress, b.HTTPAddress, b.GRPCAddress, b.ProfileAddress), nil)
 			} else {
-				rep.Nontrivial("deprecated " + c.name + vf19Fronts[i])
+				rep.Nontrivial(fmt.Sprintf("deprecated %s %v %s", c.name, c.deprecated, vf19Fronts[i]))
 			}
 		}
 	}
